@@ -14,6 +14,8 @@ pub struct VerifTb<Handle> {
     pub open_elems: Vec<Handle>,
     /// None = marker
     pub active_formatting: Vec<Option<(Handle, String)>>,
+    /// the attributes (qualified name, value) of the tag each entry was created for; None = marker
+    pub active_formatting_attrs: Vec<Option<Vec<(String, String)>>>,
     pub head_elem: Option<Handle>,
     pub form_elem: Option<Handle>,
     pub frameset_ok: bool,
@@ -66,6 +68,25 @@ where
                 .map(|e| match e {
                     FormatEntry::Marker => None,
                     FormatEntry::Element(h, t) => Some((h.clone(), format!("{t:?}"))),
+                })
+                .collect(),
+            active_formatting_attrs: active_formatting
+                .borrow()
+                .iter()
+                .map(|e| match e {
+                    FormatEntry::Marker => None,
+                    FormatEntry::Element(_, t) => Some(
+                        t.attrs
+                            .iter()
+                            .map(|a| {
+                                let n = match &a.name.prefix {
+                                    Some(p) => format!("{}:{}", p, a.name.local),
+                                    None => a.name.local.to_string(),
+                                };
+                                (n, a.value.to_string())
+                            })
+                            .collect(),
+                    ),
                 })
                 .collect(),
             head_elem: head_elem.borrow().clone(),
